@@ -192,19 +192,19 @@ Definition verdict_call (path : string) (route rk ri : Z) (args : list (Z * Z)) 
 
 (* ------------------------------------------------------- source text stream *)
 
-(* source texts that make a Go panic escape Run on the pinned tree (open findings 25, 26, 27) *)
+(* the source text that makes a Go panic escape Run on the pinned tree (open finding 27) *)
 Definition pinned_sources : list (Z * list Z) := [
-  (25, [82; 101; 103; 69; 120; 112; 46; 112; 114; 111; 116; 111; 116; 121; 112; 101; 46; 101; 120; 101; 99; 40; 34; 97; 34; 41]) (* RegExp.prototype.exec("a") *);
-  (25, [34; 97; 98; 99; 34; 46; 114; 101; 112; 108; 97; 99; 101; 40; 82; 101; 103; 69; 120; 112; 46; 112; 114; 111; 116; 111; 116; 121; 112; 101; 44; 32; 34; 120; 34; 41]) (* "abc".replace(RegExp.prototype, "x") *);
-  (26, [79; 98; 106; 101; 99; 116; 46; 105; 115; 70; 114; 111; 122; 101; 110; 40; 79; 98; 106; 101; 99; 116; 46; 112; 114; 101; 118; 101; 110; 116; 69; 120; 116; 101; 110; 115; 105; 111; 110; 115; 40; 110; 101; 119; 32; 83; 116; 114; 105; 110; 103; 40; 34; 92; 117; 102; 102; 102; 100; 34; 41; 41; 41]) (* Object.isFrozen(Object.preventExtensions(new String("\ufffd"))) *);
-  (26, [79; 98; 106; 101; 99; 116; 46; 107; 101; 121; 115; 40; 79; 98; 106; 101; 99; 116; 46; 97; 115; 115; 105; 103; 110; 40; 123; 125; 44; 32; 110; 101; 119; 32; 83; 116; 114; 105; 110; 103; 40; 34; 97; 92; 117; 102; 102; 102; 100; 98; 34; 41; 41; 41]) (* Object.keys(Object.assign({}, new String("a\ufffdb"))) *);
   (27, [102; 117; 110; 99; 116; 105; 111; 110; 32; 102; 40; 41; 123; 32; 97; 58; 32; 123; 32; 102; 111; 114; 40; 59; 59; 41; 32; 123; 32; 99; 111; 110; 116; 105; 110; 117; 101; 32; 97; 59; 32; 125; 32; 125; 32; 125; 32; 116; 121; 112; 101; 111; 102; 32; 102; 40; 41]) (* function f(){ a: { for(;;) { continue a; } } } typeof f() *)
 ].
 
-(* witnesses of repaired findings (06c26f0, e04eec8, 11c8465, 8a02cb3, dae90c4, c76d7ee, 2cabc07: SyntaxError, aa97b99), with the
+(* witnesses of repaired findings (06c26f0, e04eec8, 11c8465, 8a02cb3, dae90c4, c76d7ee, 2cabc07: SyntaxError, aa97b99, b602a64, 66edf49), with the
    outcome ES5 / the property asks for (8: the thrown object comes back as the error result): kept as
    regression cases, through Run *)
 Definition regression_sources : list (Z * list Z) := [
+  (0, [82; 101; 103; 69; 120; 112; 46; 112; 114; 111; 116; 111; 116; 121; 112; 101; 46; 101; 120; 101; 99; 40; 34; 97; 34; 41]) (* RegExp.prototype.exec("a") *);
+  (0, [34; 97; 98; 99; 34; 46; 114; 101; 112; 108; 97; 99; 101; 40; 82; 101; 103; 69; 120; 112; 46; 112; 114; 111; 116; 111; 116; 121; 112; 101; 44; 32; 34; 120; 34; 41]) (* "abc".replace(RegExp.prototype, "x") *);
+  (0, [79; 98; 106; 101; 99; 116; 46; 105; 115; 70; 114; 111; 122; 101; 110; 40; 79; 98; 106; 101; 99; 116; 46; 112; 114; 101; 118; 101; 110; 116; 69; 120; 116; 101; 110; 115; 105; 111; 110; 115; 40; 110; 101; 119; 32; 83; 116; 114; 105; 110; 103; 40; 34; 92; 117; 102; 102; 102; 100; 34; 41; 41; 41]) (* Object.isFrozen(Object.preventExtensions(new String("\ufffd"))) *);
+  (0, [79; 98; 106; 101; 99; 116; 46; 107; 101; 121; 115; 40; 79; 98; 106; 101; 99; 116; 46; 97; 115; 115; 105; 103; 110; 40; 123; 125; 44; 32; 110; 101; 119; 32; 83; 116; 114; 105; 110; 103; 40; 34; 97; 92; 117; 102; 102; 102; 100; 98; 34; 41; 41; 41]) (* Object.keys(Object.assign({}, new String("a\ufffdb"))) *);
   (0, [102; 117; 110; 99; 116; 105; 111; 110; 32; 102; 40; 41; 123; 97; 58; 32; 105; 102; 40; 49; 41; 32; 98; 114; 101; 97; 107; 32; 97; 59; 32; 114; 101; 116; 117; 114; 110; 32; 55; 125; 32; 116; 121; 112; 101; 111; 102; 32; 102; 40; 41]) (* function f(){a: if(1) break a; return 7} typeof f() *);
   (5, [110; 101; 119; 32; 70; 117; 110; 99; 116; 105; 111; 110; 40; 34; 125; 41; 44; 40; 102; 117; 110; 99; 116; 105; 111; 110; 40; 41; 123; 34; 41]) (* new Function("}),(function(){") *);
   (5, [110; 101; 119; 32; 70; 117; 110; 99; 116; 105; 111; 110; 40; 34; 97; 34; 44; 32; 34; 125; 41; 44; 40; 102; 117; 110; 99; 116; 105; 111; 110; 40; 41; 123; 34; 41]) (* new Function("a", "}),(function(){") *);
@@ -372,12 +372,11 @@ Definition verdict_acc (vk acc obs : Z) : Z * Z :=
   | None => judge Z.eqb obs 0 0 0
   end.
 
-(* probes run in a child process: 0 Value.Export of a cyclic object, 1 of a cyclic array, 2 of a 200 deep
-   acyclic object.  Export has no cycle check: the recursion ends in a fatal stack overflow that kills
-   the process (finding C02-export-cycle-fatal, class 28); what is asked for is an error result. *)
-Definition verdict_child (id obs : Z) : Z * Z :=
-  if (id =? 0) || (id =? 1) then judge_exp obs (Exactly 14) AnyThrow 28
-  else judge_exp obs (Exactly 0) (Exactly 0) 0.
+(* probes run in a child process (a fatal Go error cannot be recovered in-process): Value.Export of
+   0 a cyclic object, 1 a cyclic array, 2 a 200 deep acyclic object, 3 the global object holding itself,
+   4 a three-object cycle.  Since c5bdc3a a reference back into the structure is exported as nil: every
+   probe returns a value (C02-export-cycle-fatal repaired; the process dying again is a violation). *)
+Definition verdict_child (id obs : Z) : Z * Z := judge_exp obs (Exactly 0) (Exactly 0) 0.
 
 Definition verdict (c : case) : Z * Z :=
   match c with
